@@ -702,7 +702,14 @@ class _Interposer:
                 self._f = f
 
             def write(self, b):
-                ip.hit("write")
+                try:
+                    ip.hit("write")
+                except OSError as exc:
+                    import io
+                    # a raw file object: the kernel stores what fits and returns the short count
+                    if isinstance(self._f, io.RawIOBase) and exc.errno in (errno.ENOSPC, errno.EDQUOT, errno.EFBIG) and len(b) > 1:
+                        return self._f.write(bytes(b)[:len(b) // 2])
+                    raise
                 return self._f.write(b)
 
             def read(self, *a):
@@ -815,7 +822,7 @@ def _replay_fault_sharded(cfg, inp):
                     return False, f"real call sequence {seq} differs from the model's {inp['kinds']}: not comparable"
         exc = results[True]
         if exc is None:
-            return True, f"{strategy}: store/close returned normally although {kind} #{occ} failed with {ename}"
+            return True, f"{strategy}: store/close returned normally although {kind} #{occ} hit {ename} (space exhausted in the middle of the request for a raw file)"
         if not isinstance(exc, (OSError, acc_mod.DataAccessError)):
             return True, f"{strategy}: {kind} #{occ} failing with {ename} surfaced as {type(exc).__name__}: {exc}"
         r = sfa.ShardedFileAccessor(os.path.join(top, "armed"))
